@@ -762,11 +762,58 @@ func runC06(c *core.Ctx) {
 						fa, ok := u.X.(*ssa.FieldAddr)
 						return ok && fa.Field == errIdxF && core.Strip(fa.X) == ssa.Value(latch)
 					})
+					// asked as: assuming what is read from the latch after the encoder ran is NOT nil, can the committer be
+					// reached? (covers the read being merged into one error variable that is tested once)
+					reads := map[ssa.Value]bool{}
+					core.InstrsR(st, func(in ssa.Instruction) {
+						u, ok := in.(*ssa.UnOp)
+						if !ok || u.Op != token.MUL {
+							return
+						}
+						fa, ok := u.X.(*ssa.FieldAddr)
+						if !ok || fa.Field != errIdxF || core.Strip(fa.X) != ssa.Value(latch) {
+							return
+						}
+						if _, after := core.Reach(st, e, func(x ssa.Instruction) bool { return x == in }, nil, nil); after {
+							reads[u] = true
+						}
+					})
+					_ = latchNil
 					for _, cm := range commits {
-						path, reached := core.Reach(st, e, func(in ssa.Instruction) bool { return in == ssa.Instruction(cm) }, latchNil, nil)
-						c.Check(len(latchNil) > 0 && !reached, key+"#commit-after-latch-checked", p.Pos(cm.Pos()), "the committer is called only after the latched storage-write error was found nil", "the committer is reachable without the storage writer's latched error having been tested nil: a codec that carries on after a failed write (and reports success) gets a truncated block committed", p.Witness(path)...)
+						path, reached := core.ReachAssumingNonNil(st, e, func(in ssa.Instruction) bool { return in == ssa.Instruction(cm) }, nil, nil, reads)
+						c.Check(len(reads) > 0 && !reached, key+"#commit-after-latch-checked", p.Pos(cm.Pos()), "the committer is called only after the latched storage-write error was found nil", "the committer is reachable without the storage writer's latched error having been tested nil: a codec that carries on after a failed write (and reports success) gets a truncated block committed", p.Witness(path)...)
 					}
 				}
+			}
+			// the storage writer is written to and nothing else: Store finishes a write through the committer only. Any other
+			// use of the writer the opener handed out (a type assertion to find an Abort / Close / Flush and call it) is a
+			// second way to end the write that the storage contract does not know - a committer asked to "abort" with the
+			// empty key stores the partial block under that key in a Put-only store
+			{
+				other := ""
+				var opos token.Pos
+				core.InstrsR(st, func(in ssa.Instruction) {
+					ex, ok := in.(*ssa.Extract)
+					if !ok || ex.Tuple != ssa.Value(opener) || ex.Index != 0 || ex.Referrers() == nil {
+						return
+					}
+					for _, ref := range *ex.Referrers() {
+						switch x := ref.(type) {
+						case *ssa.Store:
+							// into the latch's field, or into the variadic slice of MultiWriter
+						case *ssa.MakeInterface, *ssa.ChangeInterface, *ssa.DebugRef, *ssa.Phi:
+						case *ssa.BinOp:
+							// nil test
+						case *ssa.TypeAssert:
+							other, opos = "a type assertion to "+types.TypeString(x.AssertedType, nil), x.Pos()
+						case ssa.CallInstruction:
+							if x.Common().IsInvoke() && x.Common().Value == ssa.Value(ex) && x.Common().Method.Name() != "Write" {
+								other, opos = "a call of "+x.Common().Method.Name(), x.Pos()
+							}
+						}
+					}
+				})
+				c.Check(other == "", key+"#writer-only-written", p.Pos(opos), "the storage writer is only written to (directly or through the latch)", "Store uses the storage writer for something besides writing ("+other+"): the write can now be ended in a way the committer does not see - an abort that a Put-only store turns into a put of the partial block under the empty key")
 			}
 			for _, cm := range commits {
 				path, reached := core.Reach(st, nil, func(in ssa.Instruction) bool { return in == ssa.Instruction(cm) }, nilEdges, nil)
